@@ -14,8 +14,8 @@ Modelled rather than verified (the theorems do not speak about these):
   One place where a field artefact would hide a real failure is division by the battery capacity:
   in a field `x / 0 = 0`, so `asSocPercent 0 0 = 0` and the clamp bounds would "hold" at capacity 0,
   while the code computes `(0.0 / 0.0) * 100 = NaN` and `NaN.clamp(0, 100) = NaN`
-  (`soc_capacity_zero_artefact`).  Every charge theorem is therefore stated for a positive
-  capacity, which the vehicle builders guarantee since /repo fix f2c4b1e (`battery_capacity_positive`,
+  (`soc_capacity_zero_artefact`).  Every charge-BOUNDS theorem (the ones carrying `CapacityPos`) is
+  therefore stated for a positive capacity, which the vehicle builders guarantee since /repo fix f2c4b1e (`battery_capacity_positive`,
   `battery_capacity_rejected`); `BEV::new` / `PHEV::new` called directly still take any capacity.
 * the time model is the speed-table engine (`SpeedTraversalModel`), the only time model the energy
   service is configured with; the prediction model is an arbitrary function (parameter); the LRU
@@ -939,7 +939,8 @@ theorem findMinEnergyRate_le (sweep : List α) : ∀ r ∈ sweep, findMinEnergyR
   intro r hr
   exact (key sweep f64Max).2 r hr
 
-/-- C08 (builder, accepted): a battery the vehicle builders accept has the configured capacity — a
+/-- C08 (builder, accepted; by construction of the model — `Battery.ofConfig`'s `if` read back, tied to the
+code by the builder stream): a battery the vehicle builders accept has the configured capacity — a
 positive one —, the configured unit, and starts full … -/
 theorem battery_capacity_positive (cap : α) (u : EnergyUnit) (b : Battery α)
     (h : Battery.ofConfig cap u = .ok b) :
@@ -970,7 +971,10 @@ theorem battery_of_config (cap : α) (u : EnergyUnit) (b : Battery α) (h : Batt
 /-- C08 `soc_bounds`, end to end for a configured battery vehicle: the battery comes from the builder
 (hence a positive capacity, taken from `battery_capacity_positive`, not from an artefact of
 division), the query is accepted by `update_from_query`, and after any route from the initial state
-the charge is within 0–100 — and the capacity in force is still the configured positive one. -/
+the charge is within 0–100 — and the capacity in force is still the configured positive one.
+Excluded, and not a theorem: a `state_features` override that starts `battery_state` outside 0–100 — the run
+then starts from that value, not from `initialState`, and with the empty route the bound fails (the harness
+lists it; the property speaks of the configured starting charge). -/
 theorem soc_bounds_configured (svc : Service α) (eng : SpeedEngine α) (fu : FeatureUnits)
     (edges : List (Edge α)) (c : Caches K α) (st' : VState α × Caches K α)
     (cap : α) (u : EnergyUnit) (b : Battery α) (v v' : Vehicle α) (q : SocQuery α)
